@@ -108,7 +108,8 @@ def check_class(ctx, R, cls, rules=None):
         R.count('functions', 1)
         con = ctx.construct(fn)
         is_update = mname == 'update'
-        coro = fn.is_coro
+        # (a plain generator helper is a coroutine fragment: driven by `yield from`, its yields suspend the driving coroutine)
+        coro = fn.is_coro or fn.is_generator
         acc = {}
 
         def rep(rule, token, ok, detail='', line=None, evs=None):
